@@ -424,6 +424,13 @@ def check(fx, rep, tier):
                     rep.obligations += 1
                     rep.discharged += 1
                     continue
+            if row is not None and row[1].startswith("discharged-by:"):
+                # the reviewed bound is an invariant that another property's rules decide (e.g. parent links form a forest)
+                from .c01 import dependency_holds
+
+                dep = row[1].split(":", 1)[1]
+                rep.oblige(dependency_holds(fx, dep), "R03.6", f"loop:{key}", F.loc(n["span"]), f"the loop in `{name}` ends only while the rules of {dep} hold ({row[2][:80]}...), and they currently report a violation", sample={"rule": "R03.6", "loop": key, "class": row[1]})
+                continue
             rep.oblige(
                 row is not None,
                 "R03.6",
